@@ -44,10 +44,10 @@ Proof. exact FollowLinksP.result_covers_resolved_proof. Qed.
        wf_view view = true ->
        follow_links_opt gmatch view (fuel_bound view reqs) reqs = Ok (if isnil then None else Some res) ->
        no_revisit gmatch view (fuel_bound view reqs) reqs = true ->
-       lexical_safe view reqs = true -> wild_last_only reqs = true ->
+       lexical_safe view reqs = true -> wild_last_only reqs = true -> links_literal view = true ->
        closed_b gmatch view isnil res reqs = true.
 
-   Each of the three hypotheses is necessary: dropping it makes the statement false. ---- *)
+   Each of the four hypotheses is necessary: dropping it makes the statement false. ---- *)
 
 Definition dirmode : N := 2147484141.   (* ModeDir | 0755 *)
 Definition lnkmode : N := 134218239.    (* ModeSymlink | 0777 *)
@@ -58,16 +58,16 @@ Definition D (name : bytes) (kids : list node) : node := Node name (mkst dirmode
 Definition F (name : bytes) : node := Node name (mkst 420 []) name [].
 Definition L (name target : bytes) : node := Node name (mkst lnkmode target) [] [].
 
-Definition refutes (view : list node) (reqs : list bytes) (res : list bytes) (nr ls wl : bool) : Prop :=
+Definition refutes (view : list node) (reqs : list bytes) (res : list bytes) (nr ls wl ll : bool) : Prop :=
   wf_view view = true /\
   follow_links_opt go_match view (fuel_bound view reqs) reqs = Ok (Some res) /\
   no_revisit go_match view (fuel_bound view reqs) reqs = nr /\
-  lexical_safe view reqs = ls /\ wild_last_only reqs = wl /\
+  lexical_safe view reqs = ls /\ wild_last_only reqs = wl /\ links_literal view = ll /\
   closed_b go_match view false res reqs = false.
 
 (* K4: self -> ., a; request self/self/a returns [self]; a is never included *)
 Theorem result_closed_refuted :
-  exists view reqs res, refutes view reqs res false true true.
+  exists view reqs res, refutes view reqs res false true true true.
 Proof.
   exists [F [97]; L [115;101;108;102] [46]], [[115;101;108;102;47;115;101;108;102;47;97]], [[115;101;108;102]].
   vm_compute. repeat split; reflexivity.
@@ -75,7 +75,7 @@ Qed.
 
 (* '..' removed lexically: d/, d/e/, d/a, a, x -> d/e; request x/../a returns [a] *)
 Theorem result_closed_lexical_refuted :
-  exists view reqs res, refutes view reqs res true false true.
+  exists view reqs res, refutes view reqs res true false true true.
 Proof.
   exists [F [97]; D [100] [F [97]; D [101] []]; L [120] [100;47;101]], [[120;47;46;46;47;97]], [[97]].
   vm_compute. repeat split; reflexivity.
@@ -83,9 +83,17 @@ Qed.
 
 (* wildcard in a middle component: d/, d/l -> t, d/t; request */l returns [*/l] *)
 Theorem result_closed_wildcard_refuted :
-  exists view reqs res, refutes view reqs res true true false.
+  exists view reqs res, refutes view reqs res true true false true.
 Proof.
   exists [D [100] [L [108] [116]; F [116]]], [[42;47;108]], [[42;47;108]].
+  vm_compute. repeat split; reflexivity.
+Qed.
+
+(* link target read as a pattern: [a] -> x, l -> [a], x; request l returns [[a], l] *)
+Theorem result_closed_linkglob_refuted :
+  exists view reqs res, refutes view reqs res true true true false.
+Proof.
+  exists [L [91;97;93] [120]; L [108] [91;97;93]; F [120]], [[108]], [[91;97;93]; [108]].
   vm_compute. repeat split; reflexivity.
 Qed.
 
@@ -137,3 +145,4 @@ Print Assumptions result_covers_resolved.
 Print Assumptions result_closed_refuted.
 Print Assumptions result_closed_lexical_refuted.
 Print Assumptions result_closed_wildcard_refuted.
+Print Assumptions result_closed_linkglob_refuted.
